@@ -35,9 +35,18 @@ class SmallEdge:
         assert self.v1.id != self.v2.id, f"edge {self.id} with the same vertex twice"
 
     def __del__(self):
+        self.unregister()
+
+    def unregister(self) -> None:
+        """
+        Remove this edge from the edge lists of its vertices. Called when the edge
+        is taken out of a mesh, so that the lists do not depend on when (or whether)
+        the object is garbage collected; afterwards the destructor does nothing.
+        """
         for v in self.verticesArray:
             if self.id in v.ownEdges:
                 v.remove_edge(self.id)
+        self.verticesArray = []
 
     def get_vertices_id(self) -> list:
         """
